@@ -292,7 +292,7 @@ def check_c07(tier, seed):
                     viol.append(("adversarial", "%s.%s(%s): %s" % (o["type"], o["method"], o["args"], o["outcome"]), o))
         run.cov["adversarial_enumeration"] = dict(adv, calls_per_receiver=dict(per))
         # 2. the bounded universes of the specification, replayed: steps where the real code panics or deadlocks
-        run.only = lambda tr: tr[-1]["res"]["err"] in ("PANIC", "DEADLOCK")
+        run.only = lambda tr: tr[-1]["res"]["err"] in ("PANIC", "DEADLOCK", "HANG")
         L = 2 if tier == "quick" else 3
         for prof, targets in (("ns", ("memfs", "orefafs")), ("nssym", ("memfs",)), ("handles", ("memfs", "orefafs"))):
             edges = run.generate(prof, L, "%s%d" % (prof, L))
